@@ -48,6 +48,27 @@ func walletViews(c *Ctx) *ir.ViewSet {
 	return c.P.Views("wallet", ir.ExpandOpt{Key: "wallet-roles", Stop: func(fn *types.Func) bool { return rs[fn] }})
 }
 
+// walletViewsD: walletViews with deferred calls made explicit before every return (a reservation performed by a
+// deferred, flag-guarded closure is then an ordinary call on the paths where the flag is set).
+func walletViewsD(c *Ctx) *ir.ViewSet {
+	rs := map[*types.Func]bool{}
+	for _, r := range reservers(c) {
+		rs[r] = true
+	}
+	return c.P.Views("wallet", ir.ExpandOpt{Key: "wallet-roles+defers", Defers: true, Stop: func(fn *types.Func) bool { return rs[fn] }})
+}
+
+func walletMethodsD(c *Ctx) []*ir.Func {
+	vs := walletViewsD(c)
+	var out []*ir.Func
+	for _, m := range c.P.MethodsOf("wallet", "SingleAddressWallet") {
+		if !vs.Absorbed[m] {
+			out = append(out, vs.Of(m))
+		}
+	}
+	return out
+}
+
 // walletMethods: the wallet's methods as expanded views; helpers absorbed by their callers are not listed.
 func walletMethods(c *Ctx) []*ir.Func {
 	vs := walletViews(c)
@@ -110,7 +131,7 @@ func c07r2(c *Ctx) {
 	if len(rs) == 0 {
 		ir.Fail("no method stores into SingleAddressWallet.locked")
 	}
-	for _, f := range walletMethods(c) {
+	for _, f := range walletMethodsD(c) {
 		isReserver := false
 		for _, r := range rs {
 			if f.Obj == r {
@@ -127,8 +148,11 @@ func c07r2(c *Ctx) {
 		g := f.Graph()
 		c.VisitGraph(f)
 		for _, call := range calls {
-			ob := c.Ob(f, "no-error-after-reserve", call.Pos())
 			n := g.NodeContaining(call.Pos())
+			if n == nil || !g.Live(n) {
+				continue // e.g. the copy of a flag-guarded deferred reservation before a return on which the flag is never set
+			}
+			ob := c.Ob(f, "no-error-after-reserve", call.Pos())
 			var st []*cfgx.Visit
 			for _, e := range n.Succs {
 				st = append(st, cfgx.StartAfter(e, 0))
@@ -642,8 +666,8 @@ func c07r5(c *Ctx) {
 func c07r6(c *Ctx) {
 	mu := walletMuField(c.P)
 	locked := walletLockedField(c.P)
-	methods := walletMethods(c)
-	ls := NewLocksetV(c.P, mu, methods, walletViews(c).Of)
+	methods := walletMethodsD(c)
+	ls := NewLocksetV(c.P, mu, methods, walletViewsD(c).Of)
 	rs := reservers(c)
 	// selectors: unexported methods that (transitively, 2 hops) read the reservation map and return candidate elements
 	reads := map[*types.Func]bool{}
@@ -735,7 +759,7 @@ func c07r6(c *Ctx) {
 
 func c07r7(c *Ctx) {
 	rs := reservers(c)
-	for _, f := range walletMethods(c) {
+	for _, f := range walletMethodsD(c) {
 		isRes := false
 		for _, r := range rs {
 			if f.Obj == r {
